@@ -327,6 +327,9 @@ class ProbeEvent(EventABC):
         self.specs = settings["hooks"]
         self.alter = settings.get("alter")
         self.double = settings.get("double_register", False)
+        # act_before_session: the before-session hook cancels the oldest resting order of the first market directly at
+        # the market (what a user event that "cleans the book at the open" does)
+        self.act_before_session = settings.get("act_before_session", False)
 
     def hook_registration(self):
         hs = []
@@ -372,6 +375,13 @@ class ProbeEvent(EventABC):
         W.observe(("hook", "execution", False))
 
     def hooked_before_session(self, simulator, session):
+        if self.act_before_session:
+            mk = simulator.markets[0]
+            live = sorted(list(mk.buy_order_book.priority_queue) + list(mk.sell_order_book.priority_queue),
+                          key=lambda o: (o.placed_at, o.order_id))
+            if live:
+                mk._cancel_order(Cancel(live[0]))
+                W.rec("event_cancelled", self.event_id, live[0].order_id)
         W.rec("hk", self.event_id, "session", True, session.session_start_time, None, session.session_id)
         W.observe(("hook", "session", True))
 
